@@ -1,6 +1,6 @@
 (* C07 — ensemble members are isolated; controls are shared exactly per scenario tree. *)
 From Coq Require Import ZArith QArith List Bool Arith Permutation.
-From RT Require Import Xq Interp Expr Transcribe Transcribe_proofs ControlTree ControlTree_proofs.
+From RT Require Import Xq Interp Expr Transcribe Transcribe_proofs ControlTree ControlTree_proofs ControlTree_coincide.
 Import ListNotations.
 Open Scope Q_scope.
 
@@ -55,3 +55,36 @@ Theorem C07_children_cover :
     (In m members <-> exists c, In c (children k d members) /\ In m c).
 Proof. exact children_cover. Qed.
 Print Assumptions C07_children_cover.
+
+(* members whose forecasts coincide on the segment deciding the children of a branch (distance 0 to each
+   other, equal distances to every member; the distance is symmetric and non-negative, as sums of norms
+   are) end up in one and the same child, whatever k, the other members and the ties *)
+Theorem C07_coinciding_same_child :
+  forall k (d : nat -> nat -> Q),
+    (forall x y, d x y == d y x) -> (forall x y, 0 <= d x y) ->
+    forall members a b,
+      NoDup members -> (0 < k)%nat -> In a members -> In b members ->
+      d a b == 0 -> (forall c, d a c == d b c) ->
+      exists c, In c (children k d members) /\ In a c /\ In b c.
+Proof. exact coinciding_same_child. Qed.
+Print Assumptions C07_coinciding_same_child.
+
+(* ... and over the whole tree: members that coincide on all segments deciding the branches of depth < D
+   are not separated by any branch of depth <= D (every such branch holds both or neither) *)
+Theorem C07_not_separated_before :
+  forall k (dist : nat -> nat -> nat -> Q) nbt, (0 < k)%nat ->
+    (forall L x y, dist L x y == dist L y x) -> (forall L x y, 0 <= dist L x y) ->
+    forall fuel path members a b D pc,
+      NoDup members -> In a members -> In b members ->
+      (forall L, (length path <= L)%nat -> (L < D)%nat -> dist L a b == 0 /\ forall c, dist L a c == dist L b c) ->
+      In pc (build k dist nbt fuel path members) -> (length (fst pc) <= D)%nat ->
+      (In a (snd pc) <-> In b (snd pc)).
+Proof. exact tree_never_separates. Qed.
+Print Assumptions C07_not_separated_before.
+
+(* non-vacuity: three members, 0 and 2 with the same forecast, k = 3 (a spare child): 0 and 2 share a child *)
+Example C07_coinciding_nonvacuous :
+  let d := fun a b : nat => if Nat.eqb (Nat.modulo a 2) (Nat.modulo b 2) then 0 else 1 in
+  children 3 d [0; 1; 2]%nat = [[0; 2]; [1]; []]%nat.
+Proof. vm_compute. reflexivity. Qed.
+Print Assumptions C07_coinciding_nonvacuous.
